@@ -1,4 +1,6 @@
 import Mieru.Proofs.C09
+import Mieru.Proofs.C09Server
+import Mieru.Proofs.C09LE
 import Mieru.Proofs.C08
 import Mieru.Model.SpecCrypto
 import Mieru.Gen.Consts
@@ -173,5 +175,134 @@ example : LowEntropy.encode [0x12, 0x34, 0x56, 0x78] 1 0x0f0f0f0f 0 false = some
 -- carry over all 24 bytes
 example : incr (List.replicate 24 0xff) = List.replicate 24 0 := by decide
 example : incr ([0, 0, 0xff, 0xff] : Bytes) = [0, 1, 0, 0] := by decide
+
+/-! ## The server → client direction (reference server, `Mieru.Model.SpecServer`)
+
+The framing theorems above are direction-agnostic (a `Segment` is any metadata of any type).
+What a third-party SERVER adds to the codec is (a) the key it answers under — the document gives
+the server three candidates and the client one key — and (b) the segments of the server
+direction, with lengths filled in from freely chosen paddings.  The harness stage
+`harness/props/c09_server.go` runs these definitions (driver `Mieru.Driver.SpecServer`) against a
+real mieru client on both transports. -/
+
+/-- the low-entropy hypothesis `LELaw` of the framing theorems holds (C17's round trip and length
+    law): the theorems of this section need no such hypothesis, and the ones above can be used
+    with `spec_le_law` -/
+theorem spec_le_law : LELaw := leLaw
+
+/-- Every segment the reference server builds within the documented limits is well formed (so
+    the round-trip theorems apply to it): open-session response with 0..1024 piggy-backed bytes
+    and any `padding 2` of 0..255 bytes; data and ack with any `padding 1` / `padding 2` of
+    0..255 bytes; low-entropy data for every valid (mode, mask, rotation) once the encoded length
+    exists; close request / response. -/
+theorem spec_server_segments_wf (c : Srv.Ctx) (hc : c.ok) :
+    (∀ payload pad2 : Bytes, payload.length ≤ 1024 → pad2.length < 256 → (Srv.openResp c payload pad2).wf) ∧
+    (∀ (fragment : Nat) (payload pad1 pad2 : Bytes), fragment < 256 → payload.length < 65536 →
+      pad1.length < 256 → pad2.length < 256 → (Srv.data c fragment payload pad1 pad2).wf) ∧
+    (∀ pad1 pad2 : Bytes, pad1.length < 256 → pad2.length < 256 → (Srv.ack c pad1 pad2).wf) ∧
+    (∀ (fragment mode mask rot : Nat) (payload pad1 pad2 : Bytes) (s : Segment), fragment < 256 →
+      mask < 2 ^ 32 → LowEntropy.validParams mode mask rot = true → payload.length ≤ 32768 →
+      pad1.length < 256 → pad2.length < 256 →
+      Srv.dataLE c fragment mode mask rot payload pad1 pad2 = some s → s.wf) ∧
+    (∀ (status : Nat) (pad2 : Bytes), status < 256 → pad2.length < 256 → (Srv.closeReq c status pad2).wf) ∧
+    (∀ pad2 : Bytes, pad2.length < 256 → (Srv.closeResp c pad2).wf) :=
+  ⟨fun p p2 hp h2 => Srv.openResp_wf c hc p p2 hp h2,
+   fun f p p1 p2 hf hp h1 h2 => Srv.data_wf c hc f hf p p1 p2 hp h1 h2,
+   fun p1 p2 h1 h2 => Srv.ack_wf c hc p1 p2 h1 h2,
+   fun f mo mk ro p p1 p2 s hf hm hv hp h1 h2 hs => Srv.dataLE_wf c hc f hf mo mk ro hm hv p p1 p2 hp h1 h2 s hs,
+   fun st p2 hs h2 => Srv.closeReq_wf c hc st hs p2 h2,
+   fun p2 h2 => Srv.closeResp_wf c hc p2 h2⟩
+
+/-- "the maximum length for an individual fragment is 32768 bytes. The exception is low entropy
+    mode `LOW_ENTROPY_MODE_32`, whose maximum is 32764 bytes so its encoded length fits the 16-bit
+    `payload length` field": the low-entropy constructor accepts every non-empty fragment up to
+    exactly these limits, and refuses 32765..32768 bytes in mode 1 -/
+theorem spec_server_le_fragment_limits (c : Srv.Ctx) (fragment mode mask rot : Nat) (payload pad1 pad2 : Bytes)
+    (hm : 1 ≤ mode ∧ mode ≤ 4) (hn : 1 ≤ payload.length) (hmax : payload.length ≤ 32768) :
+    (Srv.dataLE c fragment mode mask rot payload pad1 pad2).isSome = true ↔
+      (mode = 1 → payload.length ≤ 32764) := by
+  obtain ⟨h1, h4⟩ := hm
+  have hmode : mode = 1 ∨ mode = 2 ∨ mode = 3 ∨ mode = 4 := by omega
+  simp only [Srv.dataLE, Option.isSome_map]
+  unfold LowEntropy.encodedLen LowEntropy.ceilDiv
+  rcases hmode with rfl | rfl | rfl | rfl <;> simp only [LowEntropy.sourceBytes] <;>
+    (split <;> first | omega | (split <;> simp <;> omega))
+
+/-- **Both directions of one TCP connection**: the reference server feeds the client's bytes to
+    a receiver that has only the candidate keys, answers under the key that receiver settled on,
+    with any well-formed segments; a client that knows only its own key decodes exactly those
+    segments, nothing left over. -/
+theorem spec_tcp_reply_roundtrip (A : AeadFns) (hA : AeadLaws A)
+    (cs : List (Segment × Bool)) (hcne : cs ≠ []) (hcw : ∀ x ∈ cs, x.1.wf)
+    (tc : Tx) (cands : List Bytes) (hsync : InSync A tc (Rx.new cands))
+    (up : Bytes) (hup : sealAll A tc cs = some up)
+    (n0 : Bytes) (hn : n0.length = 24) (ts : Tx)
+    (hts : Srv.replyTx (feed A (Rx.new cands) up) n0 = some ts)
+    (ss : List (Segment × Bool)) (hsw : ∀ x ∈ ss, x.1.wf) (down : Bytes) (hdown : sealAll A ts ss = some down) :
+    ts.key = tc.key ∧
+    (feed A (Rx.new [tc.key]) down).out = ss.map (fun x => (x.1.md, x.1.payload)) ∧
+    (feed A (Rx.new [tc.key]) down).dead = none ∧ (feed A (Rx.new [tc.key]) down).buf = [] :=
+  Srv.tcp_duplex A hA leLaw cs hcne hcw tc cands hsync up hup n0 hn ts hts ss hsw down hdown
+
+/-- the reference server always can answer: after at least one well-formed client segment its
+    receiver holds the client's key -/
+theorem spec_tcp_reply_key (A : AeadFns) (hA : AeadLaws A)
+    (cs : List (Segment × Bool)) (hcne : cs ≠ []) (hcw : ∀ x ∈ cs, x.1.wf)
+    (tc : Tx) (cands : List Bytes) (hsync : InSync A tc (Rx.new cands))
+    (up : Bytes) (hup : sealAll A tc cs = some up) (n0 : Bytes) :
+    Srv.replyTx (feed A (Rx.new cands) up) n0 = some ⟨tc.key, n0, false⟩ := by
+  simp only [Srv.replyTx, Srv.feed_key A hA leLaw cs hcne hcw tc cands hsync up hup, Option.map_some]
+
+/-- **UDP request and reply**: the first candidate key that opens the client's datagram is the
+    client's, the datagram decodes to what was sealed, and a reply sealed under that key with a
+    fresh nonce is opened by the client under its own key. -/
+theorem spec_udp_reply_roundtrip (A : AeadFns) (hA : AeadLaws A) (kc nonce : Bytes) (hn : nonce.length = 24)
+    (s : Segment) (hw : s.wf) (lePad : Bool) (d : Bytes) (hs : udpSeal A kc nonce s lePad = some d)
+    (cands : List Bytes) (hin : kc ∈ cands)
+    (hc : ∀ k ∈ cands, k ≠ kc → A.openF k nonce (A.sealF kc nonce s.md.encode) = none)
+    (nonce' : Bytes) (hn' : nonce'.length = 24) (s' : Segment) (hw' : s'.wf) (lePad' : Bool) :
+    ∃ k, Srv.udpOpenCands A d cands = some (k, .ok (s.md, s.payload)) ∧
+      ∀ d', udpSeal A k nonce' s' lePad' = some d' → udpOpen A kc d' = .ok (s'.md, s'.payload) :=
+  ⟨kc, Srv.udpOpenCands_finds A hA leLaw kc nonce hn s hw lePad d hs cands hin hc,
+   fun d' hd' => udp_roundtrip A hA leLaw kc nonce' hn' s' hw' lePad' d' hd'⟩
+
+/-! ### Non-vacuity of the server-direction theorems -/
+
+-- a server context within range, and segments at the documented extremes built from it
+example : (Srv.Ctx.mk 29836258 4294967295 0 1 4096).ok := by decide
+example : (Srv.openResp ⟨29836258, 7, 0, 1, 256⟩ (List.replicate 1024 0xab) (List.replicate 255 0x20)).wf :=
+  (spec_server_segments_wf _ (by decide)).1 _ _ (by rw [List.length_replicate]; omega) (by rw [List.length_replicate]; omega)
+example : (Srv.data ⟨29836258, 7, 1, 1, 256⟩ 0 (List.replicate 32768 1) (List.replicate 255 2) (List.replicate 255 3)).wf :=
+  (spec_server_segments_wf _ (by decide)).2.1 _ _ _ _ (by decide) (by rw [List.length_replicate]; omega) (by rw [List.length_replicate]; omega) (by rw [List.length_replicate]; omega)
+-- the low-entropy constructor accepts the document's example parameters, and the result is well formed
+example : ∃ s, Srv.dataLE ⟨29836258, 7, 1, 1, 256⟩ 0 1 0x0f0f0f0f 0 [0x12, 0x34, 0x56, 0x78] [9] [8, 8] = some s ∧
+    s.md = .le ⟨11, 1, 29836258, 7, 1, 1, 256, 0, 1, 8, 2, 0x0f0f0f0f, 4, 0⟩ ∧ s.wf := by
+  refine ⟨_, rfl, rfl, ?_⟩
+  exact (spec_server_segments_wf ⟨29836258, 7, 1, 1, 256⟩ (by decide)).2.2.2.1 0 1 0x0f0f0f0f 0
+    [0x12, 0x34, 0x56, 0x78] [9] [8, 8] _ (by decide) (by decide) (by decide) (by decide) (by decide) (by decide) rfl
+-- the fragment limits are met with equality: 32764 bytes in mode 1, 32768 in mode 4; 32765 is refused in mode 1
+example : (Srv.dataLE ⟨0, 1, 1, 1, 1⟩ 0 1 0 0 (List.replicate 32764 0) [] []).isSome = true ∧
+    (Srv.dataLE ⟨0, 1, 1, 1, 1⟩ 0 4 0 0 (List.replicate 32768 0) [] []).isSome = true ∧
+    (Srv.dataLE ⟨0, 1, 1, 1, 1⟩ 0 1 0 0 (List.replicate 32765 0) [] []).isSome = false := by
+  refine ⟨?_, ?_, ?_⟩
+  · exact (spec_server_le_fragment_limits _ 0 1 0 0 _ [] [] (by decide) (by rw [List.length_replicate]; omega) (by rw [List.length_replicate]; omega)).2 (fun _ => by rw [List.length_replicate]; omega)
+  · exact (spec_server_le_fragment_limits _ 0 4 0 0 _ [] [] (by decide) (by rw [List.length_replicate]; omega) (by rw [List.length_replicate]; omega)).2 (fun h => absurd h (by decide))
+  · have h := spec_server_le_fragment_limits ⟨0, 1, 1, 1, 1⟩ 0 1 0 0 (List.replicate 32765 0) [] [] (by decide) (by rw [List.length_replicate]; omega) (by rw [List.length_replicate]; omega)
+    cases hx : (Srv.dataLE ⟨0, 1, 1, 1, 1⟩ 0 1 0 0 (List.replicate 32765 0) [] []).isSome
+    · rfl
+    · have := h.1 hx rfl
+      rw [List.length_replicate] at this; omega
+-- the toy AEAD: a client segment, the receiver with three candidates learns the client's key and
+-- the reply sender is built under it (hypothesis `hts` of `spec_tcp_reply_roundtrip`)
+example : ∃ up, sealAll toyAead ⟨[1], List.replicate 24 7, false⟩
+      [(⟨.session ⟨2, 29836258, 7, 0, 0, 3, 2⟩, [1, 2, 3], [], [8, 8]⟩, false)] = some up ∧
+    (Srv.replyTx (feed toyAead (Rx.new [[0], [1], [2]]) up) (List.replicate 24 9)).map (·.key) = some [1] := by
+  refine ⟨_, rfl, ?_⟩
+  decide
+-- UDP: the second of three candidates opens the toy datagram, the others fail on the metadata
+example : ∃ d, udpSeal toyAead [1] (List.replicate 24 7) ⟨.session ⟨2, 29836258, 7, 0, 0, 3, 2⟩, [1, 2, 3], [], [8, 8]⟩ false = some d ∧
+    (Srv.udpOpenCands toyAead d [[0], [1], [2]]).map (·.1) = some [1] := by
+  refine ⟨_, rfl, ?_⟩
+  decide
 
 end Mieru.C09
